@@ -417,7 +417,6 @@ namespace igris
 
         const T &at(size_t num) const
         {
-            assert(num < m_size);
             if (num >= m_size)
                 throw std::out_of_range("vector::at");
             return m_data[num];
